@@ -37,6 +37,16 @@ SPECIAL = [
                                                       {"type": "object", "properties": {"q": {"type": "integer"}, "a": {"type": "string"}}, "required": ["q"]}]},
                                       "v": {"anyOf": [{"type": "object", "properties": {"p": {"type": "string"}}, "required": ["p"]},
                                                       {"type": "object", "properties": {"q": {"type": "integer"}}, "required": ["q"]}]}}},
+    # allOf / anyOf members that describe the same property: lists that are merged (enum values, required names, type lists) with values in common
+    {"type": "object", "allOf": [{"type": "object", "properties": {"color": {"type": "string", "enum": ["red", "green", "blue", "cyan"]}, "n": {"type": "integer", "enum": [1, 2, 3, 4, 5]}},
+                                  "required": ["color", "n", "k"]},
+                                 {"type": "object", "properties": {"color": {"type": "string", "enum": ["blue", "cyan", "magenta", "yellow", "black"]}, "n": {"type": "integer", "enum": [4, 5, 6, 7, 1]},
+                                                                   "k": {"type": "string"}}, "required": ["k", "color", "extra1", "extra2", "n"]}]},
+    {"type": "object", "$defs": {"Base": {"type": "object", "properties": {"mode": {"enum": ["a", "b", "c", "d", "e", "f"]}, "tags": {"type": "array", "items": {"type": "string"}, "maxItems": 4}},
+                                          "required": ["mode", "tags"]}},
+     "properties": {"x": {"allOf": [{"$ref": "#/$defs/Base"}, {"type": "object", "properties": {"mode": {"enum": ["f", "e", "d", "x", "y", "z"]}, "tags": {"minItems": 1}}, "required": ["tags", "mode", "w"]}]},
+                    "y": {"anyOf": [{"type": "object", "properties": {"mode": {"enum": ["a", "b", "c", "d"]}}, "required": ["mode"]},
+                                    {"type": "object", "properties": {"mode": {"enum": ["c", "d", "e", "f", "a"]}}, "required": ["mode"]}]}}},
 ]
 
 
